@@ -428,3 +428,25 @@ def c15(a):
               "unit), lossy ones a value closer than one unit of the last printed digit (digits counted in the text).")
     c.assumptions = TRUSTED + ["no independent reader for the friendly format (relations between original and re-parsed value only)"]
     return c.finish()
+
+
+@prop("C16")
+def c16(a):
+    c = Check("C16", a.tier, a.seed)
+    workdir("C16")
+    binary = build_harness()
+    drive_and_validate(c, a, binary, "c16", "Trace_Strtime.tla")
+    c.rule = ("fmt: every conversion specifier x flag (_ - 0 ^ #) x width on values of every type, every plain specifier on "
+              "seeded values (instants over the whole range, zones with sub-hour / sub-minute / extreme offsets) and on the "
+              "days around every new year of 140+ years (week numbers, ISO year, day of year): the text must equal "
+              "ExpFmt of Strtime.tla, which prints each specifier's calendar fact from Calendar.tla / Instant.tla as POSIX "
+              "strftime defines it. rt: listed and generated multi-specifier formats; the text is parsed back into Zoned, "
+              "Timestamp, DateTime, Date and Time (BrokenDownTime::to_* and T::strptime, which must agree); the spec "
+              "derives from the directives present whether each type is determined and to what precision, and demands "
+              "the original value or an error accordingly. contra: a date printed with a wrong weekday must be refused. "
+              "rfc_p: RFC 2822 / RFC 9110 text of zoned values and timestamps (years 0..9999 and just outside) must be the "
+              "canonical text and re-parse to the same second and offset; rfc_m: texts assembled from variant tokens "
+              "(optional / wrong / re-cased weekday, 2-3-4 digit years, missing seconds, obsolete and unknown zone names, "
+              "blank runs, out-of-range fields) are read by the independent reader Rd2822 and jiff must agree or refuse.")
+    c.assumptions = TRUSTED + ["the global tz database (system zoneinfo) for %Q round trips"]
+    return c.finish()
